@@ -33,8 +33,13 @@ class BinaryFileWriter(BaseIoWriter):
         # probably already good because we read it as such, but better be safe.
         definitions = module.get_definitions_per_section()
 
-        # Iterate over (possible) sections
-        for section_name, section_id in SECTION_IDS.items():
+        # Iterate over (possible) sections, in the order the binary format
+        # prescribes: the data count section (id 12) sits between the
+        # element section and the code section.
+        section_names = [n for n in SECTION_IDS if n != "datacount"]
+        section_names.insert(section_names.index("func"), "datacount")
+        for section_name in section_names:
+            section_id = SECTION_IDS[section_name]
             if section_name == "code":
                 continue  # we have 'func' instead
 
